@@ -82,3 +82,31 @@ Definition linv (s : lstate) : Prop :=
 
 Definition res_code (r : lres) : N :=
   match r with ROk => 0 | RLockBusy => 1 | RInvalid => 2 | RIoErr => 3 | RNoSuchWriter => 4 | RPanicNoLock => 5 end.
+
+(* ---- the specification: the simplest possible state, "who is the writer" ---- *)
+Definition spec_step (alive : option wid) (o : lop) : option wid * lres :=
+  match o with
+  | Create w valid build_ok =>
+      match alive with
+      | Some _ => (alive, RLockBusy)
+      | None => if negb valid then (None, RInvalid) else if negb build_ok then (None, RIoErr) else (Some w, ROk)
+      end
+  | Rollback w build_ok =>
+      match alive with
+      | Some x => if N.eqb x w then (alive, if build_ok then ROk else RIoErr) else (alive, RNoSuchWriter)
+      | None => (alive, RNoSuchWriter)
+      end
+  | DropW w =>
+      match alive with
+      | Some x => if N.eqb x w then (None, ROk) else (alive, RNoSuchWriter)
+      | None => (alive, RNoSuchWriter)
+      end
+  | WorkerFailure w => (alive, ROk)
+  end.
+Fixpoint spec_run (alive : option wid) (ops : list lop) : list lres :=
+  match ops with
+  | [] => []
+  | o :: r => let '(a, x) := spec_step alive o in x :: spec_run a r
+  end.
+
+Definition codes (l : list lres) : list N := map res_code l.
